@@ -211,6 +211,42 @@ Fixpoint afinal (st : astate) (ops : list aop) : astate :=
   | o :: r => afinal (fst (astep st o)) r
   end.
 
+(* a BASIC statement that performs several table operations one after the other and stops at the first
+   error, e.g. DIM a(..), b(..): each array is allocated BEFORE the bounds of the next one are evaluated
+   (those may read elements: OGet).  `tail` = the error of an expression evaluation that ends the
+   statement after all listed operations succeeded (Overflow, Type mismatch, Syntax error). *)
+Inductive xop : Type :=
+| XOp (o : aop)
+| XSeq (ops : list aop) (tail : option Z).
+
+Fixpoint aseq (st : astate) (ops : list aop) : astate * res (list Z) :=
+  match ops with
+  | [] => (st, Ok [])
+  | o :: r => let '(s, out) := astep st o in
+              match out with Ok _ => aseq s r | e => (s, e) end
+  end.
+
+Definition seq_out (out : res (list Z)) (tail : option Z) : res (list Z) :=
+  match out, tail with Ok _, Some e => Err e | _, _ => out end.
+
+Definition xstep (st : astate) (x : xop) : astate * res (list Z) :=
+  match x with
+  | XOp o => astep st o
+  | XSeq ops tail => let '(s, out) := aseq st ops in (s, seq_out out tail)
+  end.
+
+Fixpoint xrun (st : astate) (xs : list xop) : list (res (list Z)) :=
+  match xs with
+  | [] => []
+  | x :: r => let '(s, out) := xstep st x in out :: xrun s r
+  end.
+
+Fixpoint xfinal (st : astate) (xs : list xop) : astate :=
+  match xs with
+  | [] => st
+  | x :: r => xfinal (fst (xstep st x)) r
+  end.
+
 (* reference: finite map (name, tuple) -> value, most recent binding first *)
 Definition vmap := list ((list Z * list Z) * list Z).
 
